@@ -497,7 +497,8 @@ impl<const LEVELS: usize> OrderBook<LEVELS> {
             self.match_bid(order_entry);
         }
         if order_entry.order.status != Status::Filled {
-            let key: OrderKey = (Side::Bid, order_entry.key.1, self.t);
+            let t = self.bid_side.next_key_time(order_entry.key.1, self.t);
+            let key: OrderKey = (Side::Bid, order_entry.key.1, t);
             order_entry.key = key;
             self.bid_side
                 .insert_order(key, order_entry.order.order_id, order_entry.order.vol)
@@ -540,7 +541,8 @@ impl<const LEVELS: usize> OrderBook<LEVELS> {
             self.match_ask(order_entry);
         }
         if order_entry.order.status != Status::Filled {
-            let key: OrderKey = (Side::Ask, order_entry.key.1, self.t);
+            let t = self.ask_side.next_key_time(order_entry.key.1, self.t);
+            let key: OrderKey = (Side::Ask, order_entry.key.1, t);
             order_entry.key = key;
             self.ask_side
                 .insert_order(key, order_entry.order.order_id, order_entry.order.vol)
@@ -700,6 +702,7 @@ impl<const LEVELS: usize> OrderBook<LEVELS> {
             match order_entry.key.0 {
                 crate::types::Side::Bid => {
                     let key: OrderKey = get_bid_key(self.t, new_price);
+                    let key = (key.0, key.1, self.bid_side.next_key_time(key.1, key.2));
                     order_entry.key = key;
 
                     self.bid_side.insert_order(
@@ -710,6 +713,7 @@ impl<const LEVELS: usize> OrderBook<LEVELS> {
                 }
                 crate::types::Side::Ask => {
                     let key: OrderKey = get_ask_key(self.t, new_price);
+                    let key = (key.0, key.1, self.ask_side.next_key_time(key.1, key.2));
                     order_entry.key = key;
 
                     self.ask_side.insert_order(
